@@ -205,6 +205,90 @@ def switch_worker(items):
     return out
 
 
+def twin_sheet_worker(items):
+    """two sheets whose cells hold the SAME formula texts (unqualified references) - except one cell, which is a constant on the
+    second sheet, so that the two sheets are different graphs; one model, one evaluator, both orders of the sheets"""
+    out = {'n': 0, 'dis': []}
+    for refs, k, exp1, exp2 in items:
+        n = len(refs)
+        for first in (2, 1):
+            def fn():
+                L = xl.lib()
+                d = {}
+                for c in range(1, n + 1):
+                    d[f'Sheet1!A{c}'] = formula_for(c, refs[c - 1], False, 0, False)
+                    d[f'Sheet2!A{c}'] = d[f'Sheet1!A{c}'] if c != k else 2 ** (c - 1)
+                ev = L.Evaluator(L.ModelCompiler().read_and_parse_dict(d))
+                res = []
+                for sh in ((2, 1) if first == 2 else (1, 2)):
+                    for entry in range(1, n + 1):
+                        try:
+                            a = xl.to_abs(ev.evaluate(f'Sheet{sh}!A{entry}'))
+                            res.append((sh, entry, {'outcome': 'value', 'val': a['n'] if a['t'] == 'num' and a['d'] == 1 else -1}))
+                        except RecursionError:
+                            res.append((sh, entry, {'outcome': 'error', 'cls': 'RecursionError'}))
+                        except BaseException as e:      # noqa
+                            if isinstance(e, (KeyboardInterrupt, SystemExit, sandbox._Timeout, MemoryError)):
+                                raise
+                            res.append((sh, entry, {'outcome': 'cycle' if 'cycle' in str(e).lower() else 'error', 'cls': type(e).__name__}))
+                return {'res': res}
+            r = sandbox.run_timed(fn)
+            bad = False
+            for sh, entry, obs in r.get('res', [(1, 1, {'outcome': r.get('outcome', 'timeout')})]):
+                out['n'] += 1
+                exp, val = (exp1 if sh == 1 else exp2)[entry]
+                if not (obs['outcome'] == exp and (exp != 'value' or obs.get('val') == val)):
+                    out['dis'].append({'case': {'refs_sheet1': refs, 'sheet2': f'the same formula texts, A{k} a constant', 'entry': f'Sheet{sh}!A{entry}',
+                                                'evaluated_first': f'Sheet{first}'},
+                                       'exp': {'outcome': exp, 'val': val}, 'obs': obs,
+                                       'features': {'expected': exp, 'observed': obs['outcome'], 'twin_sheets': True}})
+                    bad = True
+                    break
+            if bad:
+                break
+    return out
+
+
+def wide_row_events():
+    """formulas in the two-letter columns whose same-sheet ranges lie in the one-letter columns of their own rows (a row total right
+    of a wide table): acyclic, whatever the column letters look like as strings"""
+    from harness import syntax as S
+    evs = []
+    for own, rg in (((28, 2), (1, 2, 26, 2)), ((27, 2), (1, 1, 2, 2)), ((30, 3), (2, 3, 25, 3)), ((28, 1), (1, 1, 26, 3)), ((53, 2), (27, 2, 52, 2)),
+                    ((27, 5), (1, 5, 26, 5)), ((703, 2), (1, 2, 30, 2))):
+        cells = {}
+        c1, r1, c2, r2 = rg
+        k = 0
+        for c in (c1, (c1 + c2) // 2, c2):
+            for r in (r1, r2):
+                k += 1
+                cells[(c, r)] = k * 3
+        for f in ('SUM', 'COUNTA'):
+            ast = S.call(f, [S.rng(c1, r1, c2, r2)])
+            evs.append({'own': own, 'ast': ast, 'cells': cells})
+            evs.append({'own': own, 'ast': S.bin_('+', S.call(f, [S.rng(c1, r1, c2, r2)]), S.ref(c1, r1)), 'cells': cells})
+    return evs
+
+
+def wide_row_worker(evs):
+    from harness import syntax as S
+    L = xl.lib()
+    out = []
+    for e in evs:
+        addr = f"Sheet1!{S.col_letters(e['own'][0])}{e['own'][1]}"
+        d = {f'Sheet1!{S.col_letters(c)}{r}': v for (c, r), v in e['cells'].items()}
+        d[addr] = S.formula(e['ast'])
+        try:
+            res = xl.to_abs(L.Evaluator(L.ModelCompiler().read_and_parse_dict(d)).evaluate(addr))
+        except BaseException as ex:      # noqa
+            if isinstance(ex, (KeyboardInterrupt, SystemExit)):
+                raise
+            res = {'t': 'exc', 'cls': type(ex).__name__ + (' (cycle report)' if 'cycle' in str(ex).lower() else '')}
+        out.append({'ast': e['ast'], 'sheet': 'Sheet1', 'names': [], 'res': res, 'addr': addr, 'text': S.formula(e['ast']),
+                    'cells': [{'sheet': 'Sheet1', 'col': c, 'row': r, 'v': {'t': 'num', 'n': v, 'd': 1}} for (c, r), v in sorted(e['cells'].items())]})
+    return out
+
+
 def lazy_registry_worker(_):
     """every REGISTERED function with a lazily evaluated parameter (an Expr annotation - IF, AND, OR, NOT and whatever a
     change adds): A1 = F(..B1 at one position, 1 elsewhere..), B1 = SPY()+A1.  If the spy fired, the evaluation of A1
@@ -408,6 +492,42 @@ def run(run):
     run.notes['switch_graph_evaluations'] = nsw
     if nsw < 1000:
         raise xl.MachineryError(f'vacuous switch family: {nsw} evaluations')
+    # the same formula texts on two sheets that are different graphs (one cyclic, one not), one evaluator, both orders
+    tw_items = []
+    for cse in cases:
+        refs = cse['refs']
+        if any(cse['fail']) or cse['entry'] != 1:
+            continue
+        for k in range(1, len(refs) + 1):
+            if not refs[k - 1]:
+                continue
+            refs2 = [rs if c != k else [] for c, rs in enumerate(refs, 1)]
+            try:
+                exp1 = {e: table[(str(refs), e)] for e in range(1, len(refs) + 1)}
+                exp2 = {e: table[(str(refs2), e)] for e in range(1, len(refs) + 1)}
+            except KeyError:
+                continue
+            if [exp1[e][0] for e in exp1] != [exp2[e][0] for e in exp2]:      # the two sheets differ in what is a cycle
+                tw_items.append((refs, k, exp1, exp2))
+    random.Random(run.seed + 62).shuffle(tw_items)
+    tw_items = tw_items[:600 if quick else 6000]
+    ntw = 0
+    for res in pool.pmap(twin_sheet_worker, tw_items):
+        ntw += res['n']
+        for d in res['dis']:
+            run.disagree('graph', d['case'], d['exp'], d['obs'], d['features'], clause='twin-sheets:' + d['features']['expected'] + '->' + d['features']['observed'])
+    run.evaluations += ntw
+    run.notes['twin_sheet_evaluations'] = ntw
+    if ntw < 500:
+        raise xl.MachineryError(f'vacuous twin-sheet family: {ntw} evaluations')
+    # row totals right of a wide table: validated by TLC (Trace_Local) - a value, never a cycle report
+    from harness import evalrec
+    wev = [e for part in pool.pmap(wide_row_worker, wide_row_events(), nchunks=4) for e in part]
+    wv = evalrec.validate(run, wev, name='widerow', kind='wide-row')
+    run.evaluations += len(wev)
+    run.notes['wide_row_events'] = dict(wv)
+    if wv.get('ok', 0) < len(wev):
+        pass          # disagreements were recorded by the validation
     lz = pool.pmap_fresh(lazy_registry_worker, [0])[0]      # (in a child: the sandbox lowers the address-space limit of its process)
     run.evaluations += lz['n']
     run.notes['lazy_functions_scanned'] = lz['functions']
